@@ -103,7 +103,7 @@ func gen(t *rapid.T) Case {
 		c.Fails = append(c.Fails, FailRule{
 			Binding: rapid.SampledFrom(c.Ticks).Draw(t, "fb"),
 			Times:   rapid.SampledFrom([]int{1, 1, 1, 2, 3}).Draw(t, "times"),
-			Kind:    rapid.SampledFrom([]string{"exit", "exit", "exit-2", "exit-127", "killed-by-signal", "bad-metrics", "bad-patch", "invalid-patch-op", "patch-apply-error", "bad-admission-response", "bad-conversion-response"}).Draw(t, "kind"),
+			Kind:    rapid.SampledFrom([]string{"exit", "exit", "exit-2", "exit-127", "killed-by-signal", "bad-metrics", "bad-metrics-stray-brace", "bad-metrics-stray-bracket", "bad-patch", "bad-patch-stray-bracket", "invalid-patch-op", "patch-apply-error", "bad-admission-response", "bad-conversion-response"}).Draw(t, "kind"),
 		})
 	}
 	c.Late = rapid.Bool().Draw(t, "late")
@@ -134,6 +134,13 @@ func failBehaviour(kind string) vh.Behaviour {
 	switch kind {
 	case "bad-metrics":
 		return vh.Behaviour{Metrics: &vh.File{Content: `{"name":"m","set":`}}
+	case "bad-metrics-stray-brace":
+		// a complete operation followed by a closing brace too many
+		return vh.Behaviour{Metrics: &vh.File{Content: `{"name":"c04_m","set":1}}`}}
+	case "bad-metrics-stray-bracket":
+		return vh.Behaviour{Metrics: &vh.File{Content: `{"name":"c04_m","set":1}` + "\n]\n" + `{"name":"c04_m2","set":2}`}}
+	case "bad-patch-stray-bracket":
+		return vh.Behaviour{Patch: &vh.File{Content: `{"operation":"CreateIfNotExists","object":{"apiVersion":"v1","kind":"ConfigMap","metadata":{"name":"c04-stray","namespace":"default"}}}` + "\n]\n"}}
 	case "bad-patch":
 		return vh.Behaviour{Patch: &vh.File{Content: `{"operation":"Create","object":`}}
 	case "bad-admission-response":
@@ -472,7 +479,7 @@ func runCase(c Case) (ev.Info, error) {
 	return info, nil
 }
 
-const rule = "the real operator on a fake cluster; hook h with 2-4 schedule bindings (allowFailure, group, queue main/q1), hook o with one binding per queue, a blocker hook parked on a gate in both queues while 1-8 ticks are injected (so tasks pile up and get combined), 1-2 failure rules 'fail k times (k in 1..3) whenever binding X is in the contexts' by non-zero exit (1, 2, 127), a hook process killed by a signal, malformed metrics, malformed patch, invalid patch operation a well-formed patch that cannot be applied, or a malformed admission/conversion response file; after the gate opens the per-queue sequence of executions in the hook log must equal the sequence prescribed by the property (combine model + retry until success unless every involved binding allows failure, nothing else of the queue in between), and every retry starts >= the initial delay after the failed run ended; in half of the cases a tick of a further hook is injected into a queue as soon as its first failing execution ended (a task arriving during the back-off sleep), expected to run last, or an AdmissionReview request for the hook whose execution just failed is served (its execution must carry only its own context and the queue must go on as if nothing happened). Non-trivial: a failure occurred while >= 1 other task was queued behind it."
+const rule = "the real operator on a fake cluster; hook h with 2-4 schedule bindings (allowFailure, group, queue main/q1), hook o with one binding per queue, a blocker hook parked on a gate in both queues while 1-8 ticks are injected (so tasks pile up and get combined), 1-2 failure rules 'fail k times (k in 1..3) whenever binding X is in the contexts' by non-zero exit (1, 2, 127), a hook process killed by a signal, malformed metrics (truncated, or complete operations followed by a stray closing brace or bracket), malformed patch (truncated or with a stray bracket), invalid patch operation a well-formed patch that cannot be applied, or a malformed admission/conversion response file; after the gate opens the per-queue sequence of executions in the hook log must equal the sequence prescribed by the property (combine model + retry until success unless every involved binding allows failure, nothing else of the queue in between), and every retry starts >= the initial delay after the failed run ended; in half of the cases a tick of a further hook is injected into a queue as soon as its first failing execution ended (a task arriving during the back-off sleep), expected to run last, or an AdmissionReview request for the hook whose execution just failed is served (its execution must carry only its own context and the queue must go on as if nothing happened). Non-trivial: a failure occurred while >= 1 other task was queued behind it."
 
 func TestRetry(t *testing.T) {
 	ev.Main(t, ev.Spec[Case]{Property: "C04", Part: "retry", Rule: rule, Gen: gen, Run: runCase, Journal: true})
